@@ -93,11 +93,16 @@ register("C04",
 register("C15",
          "Machine-checked Coq: C15_sites, a generated obligation over the list of every iteration over a set-typed value in generator.py (re-extracted from the source on every run): none is order-sensitive and unsorted; "
          "C15_order_free: iterating sorted(set) emits the same text for every permutation the set may hand its elements over in (String.leb proved a total order; sorted permutations are equal); "
-         "C15_history_free: after any history/interleaving of planning calls every path search reads the adjacency a fresh layer would build (C19 invariant). "
-         "Tied to the code by compiling a battery of multi-model queries in subprocesses under 8+ hash seeds, on fresh layers and after scrambled histories, comparing bytes, and comparing model_dump of all registered objects before/after. "
-         "Partial: purity of the real objects is observed, not proved; modules other than generator.py are covered by the byte comparison only.",
-         "Trusted: Coq kernel; gen_setiter.py scanner (types set-valued names syntactically) trusted to list every set iteration; CPython hash randomisation as the only source of set-order nondeterminism. No axioms.",
-         "Coq proof of permutation-invariance of sorted iteration + regenerated site obligation; multi-process byte comparison", "DESIGN.md section 6/C15")
+         "C15_history_free: after any history/interleaving of planning calls every path search reads the adjacency a fresh layer would build (C19 invariant); "
+         "C15_effects_closed / C15_effects_accounted: the list of every write reachable from compile / explain / query / sql / generate / rewrite / the rollup matcher that could outlive a call (attributes and items of "
+         "anything reached from self, module-level containers, functools caches, the caller's own argument lists; regenerated from sidemantic/sql, sidemantic/core and validation.py on every run by a reachability scan) "
+         "contains only the two writes of the modelled adjacency cache and two reviewed call-local writes. "
+         "Tied to the code by compiling a battery of multi-model queries in subprocesses under 8+ hash seeds, on fresh layers and after scrambled histories, against each query compiled in a process of its own, comparing bytes, "
+         "and comparing model_dump of all registered objects before/after. "
+         "Partial: purity of the real objects is proved only up to the scan's aliasing rules (return values of helpers, sqlglot / pydantic internals are not followed) and otherwise observed.",
+         "Trusted: Coq kernel; gen_setiter.py scanner (types set-valued names syntactically) trusted to list every set iteration; gen_effects.py reachability scan (name-based call resolution, container-level copies fresh); "
+         "CPython hash randomisation as the only source of set-order nondeterminism. No axioms.",
+         "Coq proof of permutation-invariance of sorted iteration + regenerated site and persistent-write obligations; multi-process byte comparison", "DESIGN.md section 6/C15")
 
 register("C07",
          "Machine-checked Coq theorems for EVERY timestamp (Z microseconds, unbounded): truncation to hour/day/ISO week/month/quarter/year is the floor onto the bucket starts (C07_floor; era-periodicity lemmas + one exhaustive 400-year sweep lifted to all Z); "
